@@ -1,12 +1,333 @@
-"""C17: structural clauses (see DESIGN.md section 4)."""
+"""C17 command-line conversions: affix kinds and strip-what-you-matched (G4), option
+consumption (G7), worker dispatch bindings (G1), worker-count independence as an effect /
+unordered-flow analysis (G11), units (G14), batch-size independence (structural, G16)."""
 from __future__ import annotations
 
+import ast
+from typing import List, Optional, Set
+
 from rules import fwd as R_fwd
+from sa.astutil import call_name, guards_of, parent_map, u
+from sa.defuse import ReachingDefs
+from sa.model import AnalysisError, FuncInfo, own_calls, own_nodes
+from sa.resolve import bind_args
+from .c11 import UnitError, unit_of
 from .common import Ctx, plumbing
+
+MOD = "command_line"
+UNORDERED_CALLS = {"os.listdir", "os.scandir", "glob.glob", "glob.iglob"}
+GEN = "_multiprocessor_pattern_generator"
+SENSITIVE_METHODS = {"write", "writelines", "append", "extend", "insert", "writerow"}
+
+
+def _is_unordered_source(e: ast.AST) -> Optional[str]:
+    if isinstance(e, ast.Call):
+        cn = call_name(e)
+        if cn in UNORDERED_CALLS:
+            return cn
+        if cn == GEN:
+            return GEN
+        if isinstance(e.func, ast.Attribute) and e.func.attr == "imap_unordered":
+            return "imap_unordered"
+    return None
+
+
+def _body_sensitive_sinks(body: List[ast.stmt], loop_vars: Set[str], rd: ReachingDefs) -> List[ast.AST]:
+    """Order-sensitive effects inside a loop body that consumes an unordered stream."""
+    out = []
+    for st in body:
+        for n in ast.walk(st):
+            if isinstance(n, ast.Call):
+                cn = call_name(n)
+                if cn == "print":
+                    out.append(n)
+                elif isinstance(n.func, ast.Attribute) and n.func.attr in SENSITIVE_METHODS:
+                    recv = n.func.value
+                    # appending to a container that is created inside the loop body is per-item
+                    if isinstance(recv, ast.Name) and all(
+                            d.stmt is not None and any(d.stmt is s or d.stmt in list(ast.walk(s)) for s in body)
+                            for d in rd.defs_of(recv)) and rd.defs_of(recv):
+                        continue
+                    out.append(n)
+    return out
 
 
 def run(ctx: Ctx):
-    plumbing(ctx, 'S1')
-    R_fwd.g7_cli(ctx.pkg, ctx.res, ctx.col, clause='S1')
-    ctx.col.floor('g7_commands', ctx.col.counts.get('g7_commands', 0), 16)
-    return dict(explanation='plumbing clauses only (work in progress)', decided=['S1'], not_decided=[])
+    col, pkg, res = ctx.col, ctx.pkg, ctx.res
+    rel = pkg.module(MOD).relname
+    mi = pkg.module(MOD)
+
+    # ---- S1 affixes and options (G4/G7) ------------------------------------------------------------
+    R_fwd.g7_cli(pkg, res, col, clause="S1")
+    col.floor("g7_commands", col.counts.get("g7_commands", 0), 16)
+
+    # ---- S3 worker-count independence ----------------------------------------------------------------
+    # (a) the dispatcher applies the same worker to the same argument tuple in the serial and pooled branch
+    gen = pkg.func(f"{MOD}::{GEN}")
+    wf = pkg.func(f"{MOD}::_worker_func")
+    wi = pkg.func(f"{MOD}::_worker_init")
+    serial = [n for n in own_nodes(gen.node) if isinstance(n, ast.GeneratorExp)]
+    oks = len(serial) == 1 and u(serial[0].elt) == "do_work_func(x_n, *args)" and u(serial[0].generators[0].iter) == "x"
+    pool = [c for c in own_calls(gen.node) if isinstance(c.func, ast.Attribute) and c.func.attr in ("imap_unordered", "imap", "map")]
+    okp = len(pool) == 1 and u(pool[0].args[0]) == "_worker_func" and u(pool[0].args[1]) == "x"
+    ctor = [c for c in own_calls(gen.node) if isinstance(c.func, ast.Attribute) and c.func.attr == "Pool"]
+    okc = len(ctor) == 1 and len(ctor[0].args) >= 3 and u(ctor[0].args[1]) == "_worker_init" and u(ctor[0].args[2]) == "(do_work_func, *args)"
+    rets = [n for n in own_nodes(wf.node) if isinstance(n, ast.Return)]
+    okw = len(rets) == 1 and u(rets[0].value) == "_mp_func(x_n, *_mp_args)"
+    inits = {u(n.targets[0]): u(n.value) for n in own_nodes(wi.node) if isinstance(n, ast.Assign)}
+    oki = inits == {"_mp_args": "args", "_mp_func": "func"}
+    col.ob("G13", "S3", f"{rel}::{GEN}::serial==pooled-application", oks and okp and okc and okw and oki,
+           "the serial branch and the pooled branch do not apply the same worker to (item, *args): "
+           f"serial={oks} pool={okp} init={okc}/{oki} worker={okw}", rel, gen.line,
+           sample=dict(serial=u(serial[0]) if serial else None, pooled=u(pool[0]) if pool else None))
+    # the branch is chosen by num_workers only
+    tests = [u(n.test) for n in own_nodes(gen.node) if isinstance(n, ast.If)]
+    col.ob("G13", "S3", f"{rel}::{GEN}::branch-on-num-workers", tests == ["options.num_workers"],
+           f"the dispatcher branches on {tests}", rel, gen.line)
+
+    # (b) every consumer of an unordered stream is order-insensitive
+    n_src = 0
+    for f in pkg.all_functions():
+        if f.module is not mi:
+            continue
+        rd = None
+        pm = None
+        for n in own_nodes(f.node):
+            src = _is_unordered_source(n)
+            if src is None:
+                continue
+            if f.name == GEN and src == "imap_unordered":
+                continue  # the generator itself: its consumers are checked at their call sites
+            n_src += 1
+            if rd is None:
+                rd = ReachingDefs(f.node)
+                pm = parent_map(f.node)
+            where = f"{rel}::{f.qualname}"
+            par = pm.get(n)
+            verdict, why = None, ""
+            # directly wrapped
+            if isinstance(par, ast.Call) and call_name(par) in ("sorted", "set", "len", "frozenset", "sum", "any", "all", "min", "max", "iter"):
+                if call_name(par) == "iter":
+                    par2 = pm.get(par)
+                    verdict = isinstance(par2, ast.Call) and "deque" in call_name(par2)
+                    why = "results are drained without being used" if verdict else "iter() of an unordered stream"
+                else:
+                    verdict, why = True, f"wrapped in {call_name(par)}()"
+            elif isinstance(par, ast.comprehension) and par.iter is n:
+                comp = pm.get(par)
+                cpar = pm.get(comp)
+                if isinstance(cpar, ast.Call) and call_name(cpar) in ("sorted", "set", "frozenset", "sum", "any", "all", "min", "max", "dict"):
+                    verdict, why = True, f"comprehension wrapped in {call_name(cpar)}()"
+                elif isinstance(comp, ast.SetComp):
+                    verdict, why = True, "set comprehension"
+                elif isinstance(comp, ast.GeneratorExp):
+                    # a lazy stream of items: must be handed to the dispatcher (one output per item) or folded
+                    st = pm.get(comp)
+                    while st is not None and not isinstance(st, ast.stmt):
+                        st = pm.get(st)
+                    tgt = st.targets[0].id if isinstance(st, ast.Assign) and isinstance(st.targets[0], ast.Name) else None
+                    uses = [c for c in own_calls(f.node) if call_name(c) in ("_multiprocessor_pattern", GEN)
+                            and c.args and u(c.args[0]) == tgt] if tgt else []
+                    verdict = bool(uses)
+                    why = "item stream handed to the per-item dispatcher" if verdict else "generator over an unordered listing is consumed elsewhere"
+                else:
+                    verdict, why = False, "list built in listing order"
+            elif isinstance(par, ast.For) and par.iter is n:
+                lv = {x.id for x in ast.walk(par.target) if isinstance(x, ast.Name)}
+                sinks = _body_sensitive_sinks(par.body, lv, rd)
+                yields = any(isinstance(x, (ast.Yield, ast.YieldFrom)) for s in par.body for x in ast.walk(s))
+                verdict = not sinks
+                why = (f"loop body has order-sensitive effect `{u(sinks[0])[:60]}`" if sinks else
+                       ("items re-yielded to the per-item dispatcher" if yields else "loop body only folds (+=) / tests"))
+            elif isinstance(par, ast.YieldFrom):
+                verdict, why = True, "stream passed through (generator)"
+            elif isinstance(par, ast.Assign):
+                verdict, why = False, "unordered listing stored in a variable"
+            if verdict is None:
+                verdict, why = False, f"unrecognised consumer `{type(par).__name__}`"
+            col.ob("G11", "S3", f"{where}::{src}@consumer", verdict,
+                   f"results of `{src}` (arbitrary order: directory listing / worker completion order) reach an "
+                   f"order-sensitive consumer: {why}", rel, n.lineno, sample=dict(source=src, consumer=why))
+    col.floor("unordered_sources", n_src, 9)
+
+    # (c) worker functions: no globals, no mutation of shared arguments, outputs only to per-item paths
+    workers = set()
+    for f in pkg.all_functions():
+        if f.module is not mi:
+            continue
+        for c in own_calls(f.node):
+            if call_name(c) in ("_multiprocessor_pattern", GEN) and len(c.args) > 2 and isinstance(c.args[2], ast.Name) \
+                    and c.args[2].id in mi.functions:
+                workers.add(c.args[2].id)
+    col.floor("worker_functions", len(workers), 6)
+    for wname in sorted(workers):
+        w = pkg.func(f"{MOD}::{wname}")
+        where = f"{rel}::{w.qualname}"
+        item = w.params[0].name
+        rdw = ReachingDefs(w.node)
+        globs = [n for n in own_nodes(w.node) if isinstance(n, (ast.Global, ast.Nonlocal))]
+        col.ob("G11", "S3", f"{where}::no-global-state", not globs,
+               "a worker declares global/nonlocal state: results depend on which process handled which items", rel,
+               globs[0].lineno if globs else w.line)
+        shared = {p.name for p in w.params[1:]}
+        muts = []
+        for n in own_nodes(w.node):
+            if isinstance(n, (ast.Subscript, ast.Attribute)) and isinstance(n.ctx, (ast.Store, ast.Del)):
+                root = n
+                while isinstance(root, (ast.Subscript, ast.Attribute)):
+                    root = root.value
+                if isinstance(root, ast.Name) and root.id in shared and all(d.kind == "param" for d in rdw.defs_of(root) or [None] if d):
+                    muts.append(n)
+            if isinstance(n, ast.Call) and isinstance(n.func, ast.Attribute) and isinstance(n.func.value, ast.Name) \
+                    and n.func.value.id in shared and n.func.attr in ("append", "update", "add", "pop", "clear", "extend", "setdefault", "write"):
+                if all(d.kind == "param" for d in rdw.defs_of(n.func.value)):
+                    muts.append(n)
+        col.ob("G11", "S3", f"{where}::no-shared-argument-mutation", not muts,
+               f"`{u(muts[0])[:60] if muts else ''}` mutates an argument shared by all items (with several workers "
+               f"each process mutates its own copy)", rel, muts[0].lineno if muts else w.line)
+        # file outputs: path derives from the item
+        for c in own_calls(w.node):
+            cn = call_name(c)
+            path = None
+            if cn == "torch.save" and len(c.args) > 1:
+                path = c.args[1]
+            elif cn in ("shutil.copy", "shutil.copyfile", "os.link", "os.symlink", "shutil.copy2") and len(c.args) > 1:
+                path = c.args[1]
+            elif cn.endswith("write_textgrid") and len(c.args) > 1:
+                path = c.args[1]
+            elif cn == "open" and len(c.args) > 1 and isinstance(c.args[1], ast.Constant) and any(ch in c.args[1].value for ch in "wax"):
+                path = c.args[0]
+            if path is None:
+                continue
+            der = rdw.derives(path)
+            ok = item in der.params()
+            col.ob("G11", "S3", f"{where}::output({cn})-path-derives-from-item", ok,
+                   f"`{u(c)[:80]}` writes to a path that does not depend on the work item: items handled in parallel "
+                   f"overwrite each other", rel, c.lineno, sample=u(path)[:80])
+
+    # ---- S4 units in the TextGrid worker ----------------------------------------------------------------
+    tw = pkg.func(f"{MOD}::_torch_token_data_dir_to_textgrids_do_work")
+    n_u = 0
+    for n in own_nodes(tw.node):
+        if isinstance(n, ast.Assign) and isinstance(n.targets[0], ast.Name) and "frame_shift_ms" in u(n.value) \
+                and isinstance(n.value, ast.BinOp):
+            n_u += 1
+            env = {n.targets[0].id: {"frame": 1}, "frame_shift_ms": {"ms": 1, "frame": -1}}
+            try:
+                got = unit_of(n.value, env)
+                ok, msg = got == {"s": 1}, f"`{u(n)}` has unit {got}, expected seconds"
+            except UnitError as e:
+                ok, msg = False, f"`{u(n)}`: {e}"
+            col.ob("G14", "S4", f"{rel}::{tw.qualname}::length-in-seconds", ok, msg, rel, n.lineno, sample=u(n))
+    col.floor("textgrid_length_conversions", n_u, 1)
+    # the conversion pair is called with the same frame shift on both directions of the paired commands
+    for spec, fn in (("_save_transcripts_to_dir_do_work", "transcript_to_token"), ("_torch_token_data_dir_to_textgrids_do_work", "token_to_transcript")):
+        w = pkg.func(f"{MOD}::{spec}")
+        cs = [c for c in own_calls(w.node) if call_name(c).endswith(fn)]
+        okk = bool(cs) and all("frame_shift_ms" in u(c) for c in cs)
+        col.ob("G14", "S4", f"{rel}::{w.qualname}::{fn}(frame_shift_ms)", okk,
+               f"{spec} does not pass frame_shift_ms to {fn}", rel, w.line)
+
+    # ---- S5 batch-size independence (structural) -----------------------------------------------------------
+    er = pkg.func(f"{MOD}::compute_torch_token_data_dir_error_rates")
+    where = f"{rel}::{er.qualname}"
+    slices = {}
+    for n in own_nodes(er.node):
+        if isinstance(n, ast.Subscript) and isinstance(n.value, ast.Name) and n.value.id in ("ref_transcripts", "hyp_transcripts") \
+                and isinstance(n.slice, ast.Slice) and "batch_size" in u(n.slice):
+            slices.setdefault(n.value.id, set()).add(u(n.slice))
+    col.ob("G16", "S5", f"{where}::ref-and-hyp-consumed-with-the-same-bounds",
+           len(slices) == 2 and slices.get("ref_transcripts") == slices.get("hyp_transcripts") == {":options.batch_size", "options.batch_size:"},
+           f"reference and hypothesis lists are batched with {slices}", rel, er.line, sample={k: sorted(v) for k, v in slices.items()})
+    # totals are folds of per-utterance values; the printed figure uses only folds / the per-utterance table
+    rde = ReachingDefs(er.node)
+    outw = [c for c in own_calls(er.node) if isinstance(c.func, ast.Attribute) and c.func.attr == "write" and "options.out" in u(c.func.value)]
+    col.floor("error_rate_output_sites", len(outw), 2)
+    pme = parent_map(er.node)
+    loops = [n for n in own_nodes(er.node) if isinstance(n, ast.While) and "ref_transcripts" in u(n.test) and "max(" not in u(n.test)]
+    if len(loops) != 1:
+        raise AnalysisError("C17: batching loop of the error-rate command not found")
+    inside = {id(x) for x in ast.walk(loops[0])}
+    for c in outw:
+        bad = []
+        for x in ast.walk(c):
+            if isinstance(x, ast.Name) and isinstance(x.ctx, ast.Load):
+                ds = rde.defs_of(x)
+                if ds and all(d.stmt is not None and id(d.stmt) in inside and d.kind not in ("aug", "item") for d in ds):
+                    bad.append(x.id)
+        col.ob("G16", "S5", f"{where}::printed-figure-uses-only-totals@{c.lineno - er.line > 0 and 'out'}[{len(bad)}]", not bad,
+               f"the printed figure depends on batch-local values {bad}", rel, c.lineno, sample=u(c)[:100])
+    # error_rate keyword bindings: costs[0/1/2] -> ins/del/sub
+    ec = [c for c in own_calls(er.node) if call_name(c) == "error_rate"]
+    col.floor("error_rate_calls", len(ec), 1)
+    for c in ec:
+        kw = {k.arg: u(k.value) for k in c.keywords}
+        ok = (kw.get("ins_cost"), kw.get("del_cost"), kw.get("sub_cost")) == ("options.costs[0]", "options.costs[1]", "options.costs[2]") \
+            and kw.get("norm") == "False" and kw.get("include_eos") == "False"
+        col.ob("G1", "S2", f"{where}::error_rate(costs)", ok,
+               f"error_rate is called with {kw}; --costs is documented as INS DEL SUB", rel, c.lineno, sample=kw)
+    plumbing(ctx, "S1")
+    return dict(
+        explanation=(
+            "Decides for C17: (S1) every declared option is consumed, prefix/suffix filters have the right kind and "
+            "ids are obtained by slicing off exactly the matched affixes [F2 repaired]; (S2) worker arities and "
+            "bindings through the dispatcher, error_rate cost keywords; (S3) worker-count independence: the serial "
+            "and pooled branches apply the same worker to the same tuple, every consumer of an unordered stream "
+            "(os.listdir, imap_unordered) is an order-insensitive fold / sorted / per-item output, workers keep no "
+            "global state, mutate no shared argument and write only to per-item paths; (S4) frames->seconds units in "
+            "the TextGrid worker and frame_shift_ms passed to both converters; (S5) reference/hypothesis lists "
+            "batched with identical bounds, printed figures depend only on folds (no batch-local value after the "
+            "loop). NOT decided: that conversions are mutual inverses on data, pooled moments, error totals."),
+        decided=["S1", "S2", "S3", "S4", "S5"],
+        not_decided=["command inverse pairs on data", "pooled moments values", "error totals values"],
+        assumptions=["Pool.imap_unordered returns each result exactly once", "integer sums are order-insensitive"],
+    )
+
+
+def _mutants():
+    from selftest.mutate import Mutant as M
+    C = "command_line.py"
+    return [
+        M("endswith-prefix-again", C, "if x.startswith(options.file_prefix) and x.endswith(options.file_suffix))\n    os.makedirs(options.ali_dir",
+          "if x.startswith(options.file_prefix) and x.endswith(options.file_prefix))\n    os.makedirs(options.ali_dir", "G"),
+        M("print-in-unordered-loop", C, "s += s_\n        ss += ss_\n        c += c_\n    _do_mv_printing(s, ss, c, options)\n\ndef _print_torch_ref",
+          "s += s_\n        options.out.write(str(s_))\n        ss += ss_\n        c += c_\n    _do_mv_printing(s, ss, c, options)\n\ndef _print_torch_ref", "@consumer"),
+        M("listing-to-list", C, "utt_ids = (x[len(options.file_prefix):len(x) - len(options.file_suffix)] for x in os.listdir(options.dir)",
+          "utt_ids = [x[len(options.file_prefix):len(x) - len(options.file_suffix)] for x in os.listdir(options.dir)", "@consumer"),
+        M("dataset-unsorted", C, "self.utt_ids = sorted((x[fpl:len(x) - fsl] for x in os.listdir(dir_) if x.startswith(file_prefix) and x.endswith(file_suffix)))",
+          "self.utt_ids = list((x[fpl:len(x) - fsl] for x in os.listdir(dir_) if x.startswith(file_prefix) and x.endswith(file_suffix)))", "@consumer"),
+        M("worker-global", C, "def _print_torch_ali_data_dir_length_moments(file_name, exclude_ids):\n    x = torch.load(file_name)",
+          "def _print_torch_ali_data_dir_length_moments(file_name, exclude_ids):\n    global _seen\n    x = torch.load(file_name)", "no-global-state"),
+        M("worker-shared-output", C, "torch.save(tok, os.path.join(dir_, basename))", "torch.save(tok, os.path.join(dir_, 'last.pt'))", "path-derives-from-item"),
+        M("serial-drops-args", C, "yield from (do_work_func(x_n, *args) for x_n in x)", "yield from (do_work_func(x_n) for x_n in x)", "serial==pooled"),
+        M("batch-bounds-differ", C, "for utt, transcript in hyp_transcripts[:options.batch_size]]", "for utt, transcript in hyp_transcripts[:options.batch_size + 1]]", "same-bounds"),
+        M("total-uses-last-batch", C, "tot_errs / (len(error_rates) if options.distances else total_ref_tokens)", "tot_errs / (len(batch_ref_transcripts) if options.distances else total_ref_tokens)", "G16"),
+        M("costs-swapped", C, "ins_cost=options.costs[0], del_cost=options.costs[1]", "ins_cost=options.costs[1], del_cost=options.costs[0]", "error_rate(costs)"),
+        M("textgrid-length-in-ms", C, "T = T * frame_shift_ms / 1000", "T = T * frame_shift_ms", "length-in-seconds"),
+        M("splitext-id", C, "file_name[:len(file_name) - len(options.textgrid_suffix)]", "os.path.splitext(file_name)[0]", "reduce(file_name)"),
+        M("strip-other-suffix", C, "x[:len(x) - len(options.file_suffix)] for x in os.listdir(options.ref_dir)", "x[:len(x) - len(options.textgrid_suffix)] for x in os.listdir(options.ref_dir)", "strip("),
+        M("option-unread", C, "options.tier_name,\n        options.precision", "'transcript',\n        options.precision", "option(tier_name)"),
+        M("dispatch-arity", C, "options.tier_name, options.precision, options.quiet, options.force_method)", "options.tier_name, options.precision, options.quiet)", "worker-arity"),
+        M("twin:rename-x", C, "for s_, ss_, c_ in", "for a_, ss_, c_ in", "", -1, twin=True),
+    ]
+
+
+def selftest(ctx: Ctx):
+    from selftest.mutate import run_selftest
+    return run_selftest("C17", ctx.pkg.repo, _mutants(), floor=12, jobs=12)
+
+
+MANIFEST = dict(
+    level_text=(
+        "Static analysis (no execution) of the 16 console commands: option-consumption and affix-kind rules over every "
+        "declared flag and every file-name filter, argument binding through the worker dispatcher, and an unordered-"
+        "flow / effect analysis that decides worker-count independence for every completion order at once: each "
+        "unordered source (directory listing, imap_unordered) reaches only order-insensitive folds, sorted containers "
+        "or per-item outputs; workers are free of global state and shared-argument mutation; the serial and pooled "
+        "branches are the same application. Plus the structural part of batch-size independence and unit kinds. "
+        "Necessary conditions of C17; that paired commands invert each other on data is not decided."),
+    level_note="Trusted: python ast; multiprocessing.Pool semantics (each item processed once). F2 (suffix filter used "
+               "the prefix; --file-suffix unread) was found by G4/G7 and repaired.",
+    technique="static analysis: unordered-source to order-sensitive-sink flow analysis, effect analysis of worker functions, option-consumption and affix-kind lints, argument binding",
+    design_ref="DESIGN.md section 4 C17",
+)
